@@ -4,7 +4,7 @@
 S=$1; P=$2; shift 2
 cd /repo || exit 9
 git diff --quiet || { echo "REPO DIRTY: commit or stash first"; exit 9; }
-P=/verif/seeded/$S/patch.diff; [ -f /verif/seeded/$S/patch_on_fixed_tree.diff ] && P=/verif/seeded/$S/patch_on_fixed_tree.diff; git apply $P || { echo "PATCH DOES NOT APPLY"; exit 8; }
+PF=/verif/seeded/$S/patch.diff; [ -f /verif/seeded/$S/patch_on_fixed_tree.diff ] && PF=/verif/seeded/$S/patch_on_fixed_tree.diff; git apply $PF || { echo "PATCH DOES NOT APPLY"; exit 8; }
 cd /verif; timeout 3000 python3 run_check.py $P "$@" > /tmp/try_$S.log 2>&1; rc=$?
 cd /repo; git checkout -- . 
 echo "seed=$S prop=$P rc=$rc $(grep -c '^VIOLATION' /tmp/try_$S.log) violation line(s)"; grep -E "^VIOLATION|^INCONCLUSIVE|FAILED:" /tmp/try_$S.log | cut -c1-220 | head -8
